@@ -5,12 +5,15 @@ import (
 	"fmt"
 	"math"
 	"reflect"
+	"regexp"
+	"regexp/syntax"
 	"strconv"
 	"strings"
 	"time"
 
 	"github.com/grafana/carbon-relay-ng/destination"
 	"github.com/grafana/carbon-relay-ng/imperatives"
+	"github.com/grafana/carbon-relay-ng/matcher"
 	"github.com/grafana/carbon-relay-ng/rewriter"
 	"github.com/grafana/carbon-relay-ng/table"
 	m20 "github.com/metrics20/go-metrics20/carbon20"
@@ -94,6 +97,33 @@ func init() {
 			emit("%s %s", hexOrDash(key), valErrName(err))
 		})
 	}
+	subs["rx"] = func(args []string) {
+		scanLines(func(f []string, raw string) {
+			re, err := regexp.Compile(string(unhexArg(f[1])))
+			if err != nil {
+				emit("err")
+				return
+			}
+			switch f[0] {
+			case "m":
+				if re.Match(unhexArg(f[2])) {
+					emit("1")
+				} else {
+					emit("0")
+				}
+			case "x":
+				s := unhexArg(f[3])
+				mm := re.FindSubmatchIndex(s)
+				if mm == nil {
+					emit("nomatch")
+				} else {
+					emit("%s", hexOrDash(re.Expand(nil, unhexArg(f[2]), s, mm)))
+				}
+			case "r":
+				emit("%s", hexOrDash(re.ReplaceAll(unhexArg(f[3]), unhexArg(f[2]))))
+			}
+		})
+	}
 	subs["tk"] = func(args []string) {
 		scanLines(func(f []string, raw string) {
 			b := unhexArg(f[1])
@@ -115,6 +145,98 @@ func init() {
 				hexs([]byte(m.NotSub)), hexs([]byte(m.Regex)), hexs([]byte(m.NotRegex)), d.Spool, d.Pickle,
 				dur("periodFlush")/time.Millisecond, dur("periodReConn")/time.Millisecond, v.FieldByName("connBufSize").Int(), v.FieldByName("ioBufSize").Int(),
 				d.SpoolBufSize, d.SpoolMaxBytesPerFile, d.SpoolSyncEvery, d.SpoolSyncPeriod/time.Millisecond, d.SpoolSleep/time.Microsecond, d.UnspoolSleep/time.Microsecond)
+		})
+	}
+}
+
+// matcher differential (C03): `m <pre> <npre> <sub> <nsub> <re> <nre> <name>` -> "<match 0/1> <premat 0/1> <prefixFromRegex> <prefixFromNotRegex>"
+func init() {
+	subs["match"] = func(args []string) {
+		scanLines(func(f []string, raw string) {
+			m, err := matcher.New(string(unhexArg(f[1])), string(unhexArg(f[2])), string(unhexArg(f[3])), string(unhexArg(f[4])), string(unhexArg(f[5])), string(unhexArg(f[6])))
+			if err != nil {
+				emit("err")
+				return
+			}
+			name := unhexArg(f[7])
+			v := reflect.ValueOf(&m).Elem()
+			b2i := func(b bool) int {
+				if b {
+					return 1
+				}
+				return 0
+			}
+			emit("%d %d %s %s", b2i(m.Match(name)), b2i(m.PreMatch(name)), hexOrDash(v.FieldByName("prefixFromRegex").Bytes()), hexOrDash(v.FieldByName("prefixFromNotRegex").Bytes()))
+		})
+	}
+}
+
+// AST dump (C03): `<re>` -> "<regexToPrefix as the matcher derived it> <simplified syntax tree>"
+// tree: e | l<byte> | w | b | z | n | g(x) | s(x) | p(x) | q(x) | c(x,..) | a(x,..)
+func dumpRe(re *syntax.Regexp) string {
+	sub := func() string {
+		var parts []string
+		for _, s := range re.Sub {
+			parts = append(parts, dumpRe(s))
+		}
+		return strings.Join(parts, ",")
+	}
+	switch re.Op {
+	case syntax.OpEmptyMatch:
+		return "e"
+	case syntax.OpNoMatch:
+		return "n"
+	case syntax.OpLiteral:
+		var parts []string
+		for _, r := range re.Rune {
+			if re.Flags&syntax.FoldCase != 0 || r >= 0x80 {
+				parts = append(parts, "w")
+			} else {
+				parts = append(parts, fmt.Sprintf("l%d", r))
+			}
+		}
+		if len(parts) == 1 {
+			return parts[0]
+		}
+		return "c(" + strings.Join(parts, ",") + ")"
+	case syntax.OpCharClass, syntax.OpAnyCharNotNL, syntax.OpAnyChar:
+		return "w"
+	case syntax.OpBeginText:
+		return "b"
+	case syntax.OpBeginLine, syntax.OpEndLine, syntax.OpEndText, syntax.OpWordBoundary, syntax.OpNoWordBoundary:
+		return "z"
+	case syntax.OpCapture:
+		return "g(" + sub() + ")"
+	case syntax.OpStar, syntax.OpRepeat:
+		return "s(" + sub() + ")"
+	case syntax.OpPlus:
+		return "p(" + sub() + ")"
+	case syntax.OpQuest:
+		return "q(" + sub() + ")"
+	case syntax.OpConcat:
+		return "c(" + sub() + ")"
+	case syntax.OpAlternate:
+		return "a(" + sub() + ")"
+	}
+	return "w"
+}
+
+func init() {
+	subs["rxast"] = func(args []string) {
+		scanLines(func(f []string, raw string) {
+			src := string(unhexArg(f[0]))
+			m, err := matcher.New("", "", "", "", src, "")
+			if err != nil {
+				emit("err")
+				return
+			}
+			re, err := syntax.Parse(src, syntax.Perl)
+			if err != nil {
+				emit("err")
+				return
+			}
+			v := reflect.ValueOf(&m).Elem()
+			emit("%s %s", hexOrDash(v.FieldByName("prefixFromRegex").Bytes()), dumpRe(re.Simplify()))
 		})
 	}
 }
